@@ -55,6 +55,21 @@ def build():
                   E('item', 'old(self).keys.rem().len() > 0 ==> r is Some && J::get_post(&old(self).values, old(self).keys.rem()[0], &r.unwrap(), &final(self).values)'),
                   E('advance', 'old(self).keys.rem().len() > 0 ==> final(self).keys.rem() == old(self).keys.rem().drop_first()'),
                   E('mask', 'final(self).keys.set_view() == old(self).keys.set_view()')])
+    # for_each: N26 (`mut self` / `mut f` -> rebinding: Verus has no `mut self`), N27 (`X.for_each(|idx| { B })` -> `for idx in X { B }`, the
+    # definition of Iterator::for_each — applied only when B contains no `return`, which would change meaning), `impl FnMut(T)` -> a
+    # generic `F: Fn(T)` (Verus cannot call FnMut parameters; the callback's own effects are not part of the property)
+    u.fn(LJ, [LI, 'fn for_each'], props='C06', key='JoinLendIter::for_each', rules=LT + [
+             ('N26', r"fn for_each\(mut self, mut f: impl FnMut\(J::Type\)\) \{", "fn for_each<F: Fn(J::Type)>(self, f: F) { let mut self_ = self;"),
+             ('N27', r"self\.keys\.for_each\(\|idx\| \{((?:(?!\breturn\b)[\s\S])*)\}\)\s*\}\s*$", r"for idx in self_.keys {\1} }"),
+             ('N26', r'&mut self\.values', '&mut self_.values')],
+         requires=[E('wf', 'self.wf()'), E('callable', 'forall|x: J::Type| f.requires((x,))')],
+         hint_obligations=[E('visits_head', 'each iteration fetches exactly the next remaining key of the joined mask', 'C06')],
+         loops={0: dict(iter_name='it', invariant=[
+             E('seq', 'it.seq() == self.keys.rem()'),
+             E('pre', 'forall|k: int| it.index@ <= k < it.seq().len() ==> J::get_pre(&self_.values, #[trigger] it.seq()[k])'),
+             E('asc', 'forall|a: int, b: int| 0 <= a < b < it.seq().len() ==> it.seq()[a] < it.seq()[b]'),
+             E('callable', 'forall|x: J::Type| f.requires((x,))')])},
+         hints=[('before', 'J::get(&mut self_.values, idx)', 'proof { assert(/*@L:hint.visits_head*/ idx == self.keys.rem()[it.index@ as int] /*@E*/); }')])
     u.fn(LJ, [LI, 'fn get'], ret='r', props='C03 C06', key='JoinLendIter::get', rules=LT,
          hints=[('start', None, 'proof { assert forall|ov: &J::Value, id: Index, r: &J::Type, nv: &J::Value| J::get_pre(ov, id) && #[trigger] J::get_post(ov, id, r, nv) implies J::get_pre(nv, id) by { J::lemma_repeat(ov, id, r, nv); } }')],
          requires=[E('wf_all', 'old(self).wf_all()'), E('ents', 'ent_ok(*entities)')],
